@@ -4,7 +4,7 @@ PROPS[pid]["rules"] = [(rule id, floor of decided instances, selector over insta
 Floors are the numbers counted on the tree the rules were written against: a rule that suddenly
 matches fewer sites is a broken check (exit 2), never a silent pass.
 """
-from . import wf, dp, dt, he, gl, ts, ee, sl, wp, fs, ic, nb, im, rn, mp, sp, ms, cp, sh, st, rh, vo, wi
+from . import wf, dp, dt, he, gl, ts, ee, sl, wp, fs, ic, nb, im, rn, mp, sp, ms, cp, sh, st, rh, vo, wi, law, cn
 
 
 def has(*subs):
@@ -39,6 +39,8 @@ RULES = {
     "RH": {"run": rh.run},
     "VO": {"run": vo.run},
     "WI": {"run": wi.run},
+    "LAW": {"run": law.run},
+    "CN": {"run": cn.run},
 }
 
 BDD_T = ("BddNode", "BddPtr")
@@ -94,7 +96,7 @@ PROPS = {
         "level": "other",
         "rules": [("DP", 8, has("unsmoothed_wmc", "evaluate")), ("CP", 10, has("fold", "bdd_fold_h", "BddPtr::low", "BddPtr::high")),
                   ("MS", 13, None), ("FS", 7, has("fold", "wmc", "assignment_weight", "bb_ub", "marginal_map")),
-                  ("SH", 3, has("SH5"))],
+                  ("SH", 3, has("SH5")), ("LAW", 55, None)],
         "explanation": "The generic count is the homomorphism Or->+, And->*, True->1, False->0, Lit->weight by polarity, and "
                        "evaluate encodes an assignment as (low=!b, high=b) (DP); the folds hand effective children to the "
                        "callback/recursion (CP on BddPtr::fold, bdd_fold_h, SddPtr::fold); the dual-polarity memo is written and "
@@ -134,7 +136,8 @@ PROPS = {
     "C02": {
         "level": "other",
         "rules": [("GL", 2, has("GL3")), ("TS", 3, has("TS-OCC")), ("HE", 4, has(*BDD_T)),
-                  ("RN", 4, has("RN1", "RN2")), ("IM", 37, has("IM3", "IM4", "IM2")), ("RH", 13, None)],
+                  ("RN", 4, has("RN1", "RN2")), ("IM", 37, has("IM3", "IM4", "IM2")), ("RH", 14, None),
+                  ("VO", 14, None)],
         "explanation": "Structural necessary conditions of ROBDD canonicity: the unique table returns a stored node only "
                        "for an equal request (hash equal AND (by-hash OR structural equality), GL3) and must be able to "
                        "find every stored node (only occupied elements are re-inserted, re-homed with probe length 0, "
@@ -147,7 +150,7 @@ PROPS = {
     "C04": {
         "level": "other",
         "rules": [("RN", 8, has("RN3")), ("HE", 7, has(*SDD_T)), ("GL", 2, has("GL3")), ("TS", 3, has("TS-OCC")),
-                  ("IM", 22, has("IM4")), ("RH", 13, None)],
+                  ("IM", 22, has("IM4")), ("RH", 14, None)],
         "explanation": "Order of SDD canonicalisation steps on every path to the unique tables (trim, compress, trim, sort, "
                        "sign-normalise, intern: RN3), Hash/Eq agreement of BinarySDD/SddOr/SddAnd and identity Hash/Eq of "
                        "SddPtr (HE), the shared unique-table rules (GL3, TS-OCC), nodes enter only through the tables (IM4). "
@@ -179,7 +182,7 @@ PROPS = {
     },
     "C13": {
         "level": "other",
-        "rules": [("NB", 33, None), ("FS", 0, has("Polynomial"))],
+        "rules": [("NB", 33, None), ("LAW", 55, None)],
         "explanation": "Interval analysis of FiniteField::{new,negate,add,mul,sub} for each of the 7 exported primes with the "
                        "type invariant v in [0,P-1]: no u128 overflow/underflow (NB); every FiniteField literal is reduced "
                        "(NB-inv); subtraction borrows the modulus (NB-mod); polynomial coefficient writes are bounded by "
@@ -196,7 +199,7 @@ PROPS = {
     "C15": {
         "level": "other",
         "rules": [("EE", 1, None), ("IC", 5, has("repr::cnf::")), ("WP", 2, has("repr::cnf::")),
-                  ("FS", 3, has("repr::cnf::", "assignment_weight"))],
+                  ("FS", 3, has("repr::cnf::", "assignment_weight")), ("CN", 2, None)],
         "explanation": "Brute-force counting leaves its enumeration loop only when the assignment iterator is exhausted (EE); "
                        "Cnf's variable count is max label + 1 (IC); the residual hasher's pos/neg tables are selected and "
                        "indexed by the same literal (WP); counting accumulators are seeded with zero/one (FS). Not decided: "
@@ -215,7 +218,7 @@ PROPS = {
     "C17": {
         "level": "other",
         "rules": [("DP", 11, has("from_sexpr", "VTreeSerializer", "from_dimacs")), ("IC", 1, has("from_dimacs")),
-                  ("CP", 6, has("serialize::"))],
+                  ("CP", 6, has("serialize::")), ("CN", 1, has("repr::cnf::"))],
         "explanation": "The s-expression translation and the vtree mirror map each variant to its namesake with children in "
                        "order (DP); DIMACS signs map Neg to false and Pos to true in both parsers (DP); the CNF parser "
                        "subtracts one from the 1-based DIMACS variable (IC OneBased -> Index). Not decided: model-level "
@@ -235,7 +238,7 @@ PROPS = {
     },
     "C19": {
         "level": "other",
-        "rules": [("MP", 6, None), ("SL", 7, None)],
+        "rules": [("MP", 6, None), ("SL", 7, None), ("CP", 3, has("ser_bdd")), ("VO", 2, has("var_at_level"))],
         "explanation": "In each tool the counted / serialised diagram is the compiled one, compiled on a builder whose order "
                        "comes from the same formula; counts are taken on smooth(_, num_vars); weights are keyed by the "
                        "expression's own variable mapping (MP, SL2). Not decided: the printed numbers.",
